@@ -7,7 +7,7 @@ import OmbottModel.Model.RespHelp
                                         on thread 0); answer: the results joined by `;`, then per object the dict each of the
                                         threads 0..2 sees (`x` = no `dict` attribute there)
     resphelp fw <attrs> <data> <sched> <buff>     `list(WSGIFileWrapper(fp, buff))`
-    resphelp ci <close-arg>             `_closeiter(it, close).close()`
+    resphelp ci <close-arg> <items>     `list(_closeiter(iter(items), close))` and `.close()`
     resphelp resp <fin> <op> …          statements on an `HTTPResponse()`, then `obs` | `copy:<cls>` | `repr`
     resphelp iter <body>                `list(iter(response))`
     resphelp new <cls> <0|1>            `cls.__new__(cls[, status=200])`
@@ -169,10 +169,10 @@ def handle : List String → Option String
       match fwIter have_ { data := unhexBytes data, sched := natList sched } b with
       | .ok parts => "ok " ++ hexBytesList parts
       | .error e => "e" ++ e.name)
-  | ["ci", arg] => do
+  | ["ci", arg, items] => do
     let a ← parseCloseArg arg
     let (calls, e) := closeiterClose (closeiterInit a)
-    pure s!"calls={showNatList calls} err={match e with | some x => x.name | Option.none => "ok"}"
+    pure s!"calls={showNatList calls} err={match e with | some x => x.name | Option.none => "ok"} items={hexBytesList (closeiterIter (unhexBytesList items))}"
   | "resp" :: fin :: ops => do
     let ops' ← ops.mapM parseROp
     let (r, es) := runR RObj.fresh ops'
